@@ -67,7 +67,7 @@ GlobalValue(m, fgP, fgR) ==
        ELSE [edge |-> FALSE, v |-> Score(m, Shape, fgR, fgP)]
 
 MakeResult(nP, nR, tp, surv) ==
-    LET ps == SetToSeq(surv)
+    LET ps == SeqOfSet(surv)
         lists == [m \in cfg.im |-> ScoresOf(m, Shape, ps)]
     IN [nP |-> nP, nR |-> nR, tp |-> tp, fp |-> nP - tp, fn |-> nR - tp,
         lists |-> lists,
